@@ -1,11 +1,1580 @@
-//! C05 — not built yet (see DESIGN.md §5 C05).
+//! C05 — join ordering, join algorithms and subquery rewrites preserve query meaning.
+//!
+//! Space: equivalence classes of query formulations (built in `catalogue`) × every database of a
+//! small scope × naming variants (qualified / aliased / TPC-H-style prefixed unqualified / self join)
+//! × index variants (none / index on the inner join key / on the outer one / both).
+//! Oracle: every member of a class must return the bag the definitional nested-loop evaluator
+//! (`mini.rs`) computes for *that member's own AST*; the evaluator must itself agree on all members of
+//! a class (otherwise the claimed equivalence is the harness' mistake: exit 2, never a verdict).
+//! Everything is enumerated completely within the tier's bounds; nothing is sampled.
 
-pub fn run(_tier: &str) -> i32 {
-    eprintln!("MACHINERY-ERROR C05 is not built yet");
-    2
+use std::collections::{BTreeMap, BTreeSet, HashMap, HashSet};
+use std::sync::atomic::{AtomicU64, Ordering};
+use std::sync::Mutex;
+
+use serde_json::{json, Value};
+use vcore::exec::{self, Out};
+use vcore::report::Report;
+use vcore::util;
+use vcore::val::{self, NV};
+use vibesql_storage::Database;
+
+use crate::mini::{self, and, and_all, cmp, is_not_null, is_null, not, or, Db, Sel, Table, Val, E, F, JK, Q};
+
+// =============================================================================================
+// naming variants
+// =============================================================================================
+
+#[derive(Clone, Debug)]
+pub struct Tab {
+    /// physical table
+    pub name: String,
+    pub alias: Option<String>,
+    /// qualifier used in column references (None = unqualified)
+    pub qual: Option<String>,
+    pub k: String,
+    pub p: String,
 }
 
-pub fn replay(_case: &serde_json::Value) -> i32 {
-    eprintln!("MACHINERY-ERROR C05 is not built yet");
-    2
+impl Tab {
+    fn new(name: &str, alias: Option<&str>, qualified: bool, k: &str, p: &str) -> Tab {
+        let qual = if qualified { Some(alias.unwrap_or(name).to_string()) } else { None };
+        Tab { name: name.into(), alias: alias.map(|s| s.into()), qual, k: k.into(), p: p.into() }
+    }
+    fn k(&self) -> E {
+        E::Col(self.qual.clone(), self.k.clone())
+    }
+    fn p(&self) -> E {
+        E::Col(self.qual.clone(), self.p.clone())
+    }
+    fn cols(&self) -> Vec<E> {
+        vec![self.k(), self.p()]
+    }
+    fn f(&self) -> F {
+        F::T { name: self.name.clone(), alias: self.alias.clone() }
+    }
+    /// the name under which the item is visible
+    fn vis(&self) -> String {
+        self.alias.clone().unwrap_or_else(|| self.name.clone())
+    }
+    /// `(SELECT * FROM name) AS vis`
+    fn d(&self) -> F {
+        F::D {
+            q: Box::new(Q { distinct: false, sel: Sel::Star, from: F::T { name: self.name.clone(), alias: None }, wh: None }),
+            alias: self.vis(),
+        }
+    }
+    /// `(SELECT k, p FROM name) AS vis` (explicit column list)
+    fn d_cols(&self) -> F {
+        F::D {
+            q: Box::new(Q {
+                distinct: false,
+                sel: Sel::Cols(vec![E::Col(None, self.k.clone()), E::Col(None, self.p.clone())]),
+                from: F::T { name: self.name.clone(), alias: None },
+                wh: None,
+            }),
+            alias: self.vis(),
+        }
+    }
+}
+
+#[derive(Clone, Debug)]
+pub struct Names {
+    pub id: &'static str,
+    /// "plain" = t(a,b) u(a,d) w(a,e); "prefixed" = t(t_a,t_b) u(u_a,u_d) w(w_a,w_e);
+    /// "fkstyle" = t(t_a,u_b) u(u_a,u_d) w(w_a,w_e): t's payload column carries u's prefix
+    pub schema: &'static str,
+    pub t: Tab,
+    pub u: Tab,
+    pub w: Tab,
+    /// u is a second instance of the physical table t
+    pub self_join: bool,
+    /// how u's columns are written *inside* a subquery over u (differs from `u` only for "innerbare"/"bothbare")
+    pub u_in: Tab,
+    /// how t's columns are written inside a subquery over u (differs from `t` only for "bothbare")
+    pub t_in: Tab,
+}
+
+pub fn names(id: &str) -> Names {
+    match id {
+        "qual" => Names {
+            id: "qual",
+            schema: "plain",
+            t: Tab::new("t", None, true, "a", "b"),
+            u: Tab::new("u", None, true, "a", "d"),
+            w: Tab::new("w", None, true, "a", "e"),
+            self_join: false,
+            u_in: Tab::new("u", None, true, "a", "d"),
+            t_in: Tab::new("t", None, true, "a", "b"),
+        },
+        "alias" => Names {
+            id: "alias",
+            schema: "plain",
+            t: Tab::new("t", Some("x"), true, "a", "b"),
+            u: Tab::new("u", Some("y"), true, "a", "d"),
+            w: Tab::new("w", Some("z"), true, "a", "e"),
+            self_join: false,
+            u_in: Tab::new("u", Some("y"), true, "a", "d"),
+            t_in: Tab::new("t", Some("x"), true, "a", "b"),
+        },
+        "prefix" => Names {
+            id: "prefix",
+            schema: "prefixed",
+            t: Tab::new("t", None, false, "t_a", "t_b"),
+            u: Tab::new("u", None, false, "u_a", "u_d"),
+            w: Tab::new("w", None, false, "w_a", "w_e"),
+            self_join: false,
+            u_in: Tab::new("u", None, false, "u_a", "u_d"),
+            t_in: Tab::new("t", None, false, "t_a", "t_b"),
+        },
+        "fkstyle" => Names {
+            id: "fkstyle",
+            schema: "fkstyle",
+            t: Tab::new("t", None, false, "t_a", "u_b"),
+            u: Tab::new("u", None, false, "u_a", "u_d"),
+            w: Tab::new("w", None, false, "w_a", "w_e"),
+            self_join: false,
+            u_in: Tab::new("u", None, false, "u_a", "u_d"),
+            t_in: Tab::new("t", None, false, "t_a", "u_b"),
+        },
+        "innerbare" => Names {
+            id: "innerbare",
+            schema: "plain",
+            t: Tab::new("t", None, true, "a", "b"),
+            u: Tab::new("u", None, true, "a", "d"),
+            w: Tab::new("w", None, true, "a", "e"),
+            self_join: false,
+            // inside the subquery u's columns are unqualified although t has a column of the same name
+            u_in: Tab::new("u", None, false, "a", "d"),
+            t_in: Tab::new("t", None, true, "a", "b"),
+        },
+        "bothbare" => Names {
+            id: "bothbare",
+            schema: "plain",
+            // the outer query does not qualify its columns either: `a IN (SELECT a FROM u)`
+            t: Tab::new("t", None, false, "a", "b"),
+            u: Tab::new("u", None, true, "a", "d"),
+            w: Tab::new("w", None, true, "a", "e"),
+            self_join: false,
+            u_in: Tab::new("u", None, false, "a", "d"),
+            // from inside the subquery the outer column needs its qualifier (the inner `a` shadows it)
+            t_in: Tab::new("t", None, true, "a", "b"),
+        },
+        "self" => Names {
+            id: "self",
+            schema: "plain",
+            t: Tab::new("t", Some("x"), true, "a", "b"),
+            u: Tab::new("t", Some("y"), true, "a", "b"),
+            w: Tab::new("w", Some("z"), true, "a", "e"),
+            self_join: true,
+            u_in: Tab::new("t", Some("y"), true, "a", "b"),
+            t_in: Tab::new("t", Some("x"), true, "a", "b"),
+        },
+        other => panic!("unknown naming {}", other),
+    }
+}
+
+fn schema_cols(schema: &str) -> [(&'static str, [&'static str; 2]); 3] {
+    match schema {
+        "plain" => [("t", ["a", "b"]), ("u", ["a", "d"]), ("w", ["a", "e"])],
+        "prefixed" => [("t", ["t_a", "t_b"]), ("u", ["u_a", "u_d"]), ("w", ["w_a", "w_e"])],
+        "fkstyle" => [("t", ["t_a", "u_b"]), ("u", ["u_a", "u_d"]), ("w", ["w_a", "w_e"])],
+        other => panic!("unknown schema {}", other),
+    }
+}
+
+// =============================================================================================
+// catalogue of equivalence classes
+// =============================================================================================
+
+#[derive(Clone, Debug)]
+pub struct Member {
+    pub family: &'static str,
+    pub class: String,
+    pub member: String,
+    pub q: Q,
+    pub sql: String,
+    /// which data columns the conditions look at: [t.p, u.p, w used, w.p]
+    pub foot: [bool; 4],
+    /// syntactic shape tags computed from the AST (used in signatures)
+    pub shape: String,
+    /// the SQL text parsed once by the real parser (None: the parser rejects it)
+    pub stmt: Option<Box<vibesql_ast::SelectStmt>>,
+    /// subquery predicates of the outermost WHERE: kind@position tags (used in signatures), "-" if none
+    pub subq: String,
+}
+
+fn swap_op(op: &'static str) -> &'static str {
+    match op {
+        "<" => ">",
+        "<=" => ">=",
+        ">" => "<",
+        ">=" => "<=",
+        o => o,
+    }
+}
+
+/// Mirror every comparison and reverse every AND/OR (same meaning, different syntax).
+fn flip(e: &E) -> E {
+    match e {
+        E::Cmp(op, a, b) => E::Cmp(swap_op(op), b.clone(), a.clone()),
+        E::And(a, b) => E::And(Box::new(flip(b)), Box::new(flip(a))),
+        E::Or(a, b) => E::Or(Box::new(flip(b)), Box::new(flip(a))),
+        E::Not(a) => E::Not(Box::new(flip(a))),
+        other => other.clone(),
+    }
+}
+
+fn sel(cols: Vec<E>, from: F, wh: Option<E>) -> Q {
+    Q { distinct: false, sel: Sel::Cols(cols), from, wh }
+}
+fn j(kind: JK, l: F, r: F, on: Option<E>) -> F {
+    F::J { kind, l: Box::new(l), r: Box::new(r), on }
+}
+fn eq(a: E, b: E) -> E {
+    cmp("=", a, b)
+}
+
+fn mentions(e: &E, c: &str, out: &mut bool) {
+    match e {
+        E::Col(_, n) => {
+            if n.eq_ignore_ascii_case(c) {
+                *out = true
+            }
+        }
+        E::Int(_) | E::Null => {}
+        E::Cmp(_, a, b) | E::And(a, b) | E::Or(a, b) => {
+            mentions(a, c, out);
+            mentions(b, c, out)
+        }
+        E::Not(a) | E::IsNull(a, _) => mentions(a, c, out),
+        E::InSub(a, q, _) | E::Quant(_, _, a, q) => {
+            mentions(a, c, out);
+            mentions_q(q, c, out, false)
+        }
+        E::Exists(q, _) => mentions_q(q, c, out, false),
+    }
+}
+fn mentions_f(f: &F, c: &str, out: &mut bool) {
+    match f {
+        F::T { .. } => {}
+        F::D { q, .. } => mentions_q(q, c, out, false),
+        F::J { l, r, on, .. } => {
+            mentions_f(l, c, out);
+            mentions_f(r, c, out);
+            if let Some(e) = on {
+                mentions(e, c, out)
+            }
+        }
+    }
+}
+/// `top`: the outermost select list is output only and does not count as "looked at"
+fn mentions_q(q: &Q, c: &str, out: &mut bool, top: bool) {
+    if let (Sel::Max(e), false) = (&q.sel, top) {
+        mentions(e, c, out)
+    }
+    if let (Sel::Cols(cs), false) = (&q.sel, top) {
+        // a projected column of a subquery matters when it feeds IN / a derived table; to stay on the
+        // safe side every non-top projection counts
+        for e in cs {
+            mentions(e, c, out)
+        }
+    }
+    mentions_f(&q.from, c, out);
+    if let Some(w) = &q.wh {
+        mentions(w, c, out)
+    }
+}
+fn uses_table(f: &F, name: &str) -> bool {
+    match f {
+        F::T { name: n, .. } => n.eq_ignore_ascii_case(name),
+        F::D { q, .. } => uses_table_q(q, name),
+        F::J { l, r, on, .. } => uses_table(l, name) || uses_table(r, name) || on.as_ref().map(|e| uses_table_e(e, name)).unwrap_or(false),
+    }
+}
+fn uses_table_e(e: &E, name: &str) -> bool {
+    match e {
+        E::Col(..) | E::Int(_) | E::Null => false,
+        E::Cmp(_, a, b) | E::And(a, b) | E::Or(a, b) => uses_table_e(a, name) || uses_table_e(b, name),
+        E::Not(a) | E::IsNull(a, _) => uses_table_e(a, name),
+        E::InSub(a, q, _) | E::Quant(_, _, a, q) => uses_table_e(a, name) || uses_table_q(q, name),
+        E::Exists(q, _) => uses_table_q(q, name),
+    }
+}
+fn uses_table_q(q: &Q, name: &str) -> bool {
+    uses_table(&q.from, name) || q.wh.as_ref().map(|e| uses_table_e(e, name)).unwrap_or(false)
+}
+
+/// Shape tags of a query: what the optimizer can see syntactically.
+fn shape_of(q: &Q) -> String {
+    let mut tags: BTreeSet<&'static str> = BTreeSet::new();
+    fn conj<'a>(e: &'a E, out: &mut Vec<&'a E>) {
+        match e {
+            E::And(a, b) => {
+                conj(a, out);
+                conj(b, out)
+            }
+            o => out.push(o),
+        }
+    }
+    fn walk_e(e: &E, tags: &mut BTreeSet<&'static str>) {
+        match e {
+            E::InSub(_, q, neg) => {
+                tags.insert(if *neg { "not_in" } else { "in" });
+                walk_q(q, tags);
+            }
+            E::Exists(q, neg) => {
+                tags.insert(if *neg { "not_exists" } else { "exists" });
+                walk_q(q, tags);
+            }
+            E::Quant(_, all, _, q) => {
+                tags.insert(if *all { "all" } else { "any" });
+                walk_q(q, tags);
+            }
+            E::Cmp(_, a, b) | E::And(a, b) | E::Or(a, b) => {
+                walk_e(a, tags);
+                walk_e(b, tags)
+            }
+            E::Not(a) | E::IsNull(a, _) => walk_e(a, tags),
+            _ => {}
+        }
+    }
+    fn walk_f(f: &F, tags: &mut BTreeSet<&'static str>) {
+        match f {
+            F::T { .. } => {}
+            F::D { q, .. } => {
+                tags.insert("derived");
+                walk_q(q, tags)
+            }
+            F::J { kind, l, r, on } => {
+                tags.insert(match kind {
+                    JK::Comma => "comma",
+                    JK::Cross => "cross",
+                    JK::Inner => "join_on",
+                });
+                walk_f(l, tags);
+                walk_f(r, tags);
+                if let Some(e) = on {
+                    walk_e(e, tags)
+                }
+            }
+        }
+    }
+    fn walk_q(q: &Q, tags: &mut BTreeSet<&'static str>) {
+        walk_f(&q.from, tags);
+        if let Some(w) = &q.wh {
+            walk_e(w, tags)
+        }
+    }
+    walk_q(q, &mut tags);
+    // top-level WHERE conjuncts that are a bare [NOT] IN / [NOT] EXISTS: candidates of the
+    // subquery-to-join transformation
+    if let Some(w) = &q.wh {
+        let mut cs = vec![];
+        conj(w, &mut cs);
+        for c in cs {
+            match c {
+                E::InSub(_, _, false) => {
+                    tags.insert("top_in");
+                }
+                E::InSub(_, _, true) => {
+                    tags.insert("top_not_in");
+                }
+                E::Exists(_, false) => {
+                    tags.insert("top_exists");
+                }
+                E::Exists(_, true) => {
+                    tags.insert("top_not_exists");
+                }
+                _ => {}
+            }
+        }
+    }
+    if q.distinct {
+        tags.insert("distinct");
+    }
+    if matches!(q.sel, Sel::Star) {
+        tags.insert("star");
+    }
+    tags.into_iter().collect::<Vec<_>>().join("+")
+}
+
+/// Does `e` mention a column of the outer table `t` (by qualifier, or by its unique unqualified name)?
+fn refs_outer(e: &E, n: &Names) -> bool {
+    let t = &n.t;
+    match e {
+        E::Col(Some(q), _) => Some(q) == t.qual.as_ref() || Some(q) == n.t_in.qual.as_ref(),
+        E::Col(None, c) => t.qual.is_none() && (c == &t.k || c == &t.p),
+        E::Int(_) | E::Null => false,
+        E::Cmp(_, a, b) | E::And(a, b) | E::Or(a, b) => refs_outer(a, n) || refs_outer(b, n),
+        E::Not(a) | E::IsNull(a, _) => refs_outer(a, n),
+        E::InSub(a, q, _) | E::Quant(_, _, a, q) => refs_outer(a, n) || q.wh.as_ref().map(|w| refs_outer(w, n)).unwrap_or(false),
+        E::Exists(q, _) => q.wh.as_ref().map(|w| refs_outer(w, n)).unwrap_or(false),
+    }
+}
+
+/// kind@position of every subquery predicate in the outermost WHERE clause.
+/// position: conj = reached through AND only (the subquery-to-join transformation looks there),
+/// or = through AND/OR, not = below a NOT. `+dfrom` = the subquery reads a derived table.
+fn subq_tags(q: &Q, n: &Names) -> String {
+    fn walk(e: &E, pos: &'static str, n: &Names, out: &mut BTreeSet<String>) {
+        let inner = |sq: &Q| -> (bool, &'static str) {
+            (sq.wh.as_ref().map(|w| refs_outer(w, n)).unwrap_or(false), if matches!(sq.from, F::D { .. }) { "+dfrom" } else { "" })
+        };
+        match e {
+            E::And(a, b) => {
+                walk(a, pos, n, out);
+                walk(b, pos, n, out)
+            }
+            E::Or(a, b) => {
+                let p = if pos == "conj" { "or" } else { pos };
+                walk(a, p, n, out);
+                walk(b, p, n, out)
+            }
+            E::Not(a) => walk(a, "not", n, out),
+            E::IsNull(a, _) => walk(a, "not", n, out),
+            E::Cmp(_, a, b) => {
+                walk(a, "not", n, out);
+                walk(b, "not", n, out)
+            }
+            E::InSub(_, sq, neg) => {
+                let (corr, d) = inner(sq);
+                out.insert(format!("{}{}{}@{}", if *neg { "not_in" } else { "in" }, if corr { "_corr" } else { "" }, d, pos));
+            }
+            E::Exists(sq, neg) => {
+                let (corr, d) = inner(sq);
+                out.insert(format!("{}{}{}@{}", if *neg { "not_exists" } else { "exists" }, if corr { "_corr" } else { "" }, d, pos));
+            }
+            E::Quant(_, all, _, sq) => {
+                let (corr, d) = inner(sq);
+                out.insert(format!("{}{}{}@{}", if *all { "all" } else { "any" }, if corr { "_corr" } else { "" }, d, pos));
+            }
+            E::Col(..) | E::Int(_) | E::Null => {}
+        }
+    }
+    let mut out = BTreeSet::new();
+    if let Some(w) = &q.wh {
+        walk(w, "conj", n, &mut out);
+    }
+    if out.is_empty() {
+        "-".into()
+    } else {
+        out.into_iter().collect::<Vec<_>>().join(",")
+    }
+}
+
+struct Cat<'a> {
+    n: &'a Names,
+    thorough: bool,
+    out: Vec<Member>,
+}
+
+/// formulations left to the thorough tier (each has a close sibling that stays in the quick tier)
+const QUICK_SKIP: &[&str] = &["cross_ut", "der_cols_ut", "star_join", "on0_wh1_ut", "flip_join", "join_on", "comma_join_ut", "exists_from_derived", "not_not_exists", "not_in_distinct", "not_exists_star_flip", "der_t_wut", "join_then_comma"];
+
+impl<'a> Cat<'a> {
+    fn add(&mut self, family: &'static str, class: &str, member: &str, q: Q) {
+        let n = self.n;
+        let mut foot = [false; 4];
+        mentions_q(&q, &n.t.p, &mut foot[0], true);
+        mentions_q(&q, &n.u.p, &mut foot[1], true);
+        foot[2] = uses_table_q(&q, &n.w.name);
+        mentions_q(&q, &n.w.p, &mut foot[3], true);
+        if n.self_join {
+            // u is t: both payload flags describe the same physical column
+            foot[0] = foot[0] || foot[1];
+            foot[1] = false;
+        }
+        let sql = mini::render_q(&q);
+        if !self.thorough && QUICK_SKIP.contains(&member) {
+            return;
+        }
+        let shape = shape_of(&q);
+        let stmt = match exec::parse(&sql) {
+            Ok(vibesql_ast::Statement::Select(s)) => Some(s),
+            _ => None,
+        };
+        let subq = subq_tags(&q, n);
+        self.out.push(Member { family, class: class.into(), member: member.into(), q, sql, foot, shape, stmt, subq });
+    }
+}
+
+/// All members for one naming variant. `thorough` adds the wider menus.
+pub fn catalogue(n: &Names, thorough: bool) -> Vec<Member> {
+    let mut c = Cat { n, thorough, out: vec![] };
+    let (t, u, w) = (&n.t, &n.u, &n.w);
+    let tu_cols: Vec<E> = [t.cols(), u.cols()].concat();
+
+    // ---------------------------------------------------------------- two-table joins
+    // condition = AND of parts
+    let mut conds: Vec<(&str, Vec<E>)> = vec![
+        ("eq", vec![eq(t.k(), u.k())]),
+        ("eq2", vec![eq(t.k(), u.k()), eq(t.p(), u.p())]),
+        ("lt", vec![cmp("<", t.k(), u.k())]),
+        ("eq_lt", vec![eq(t.k(), u.k()), cmp("<", t.p(), u.p())]),
+        ("eq_loc", vec![eq(t.k(), u.k()), eq(u.p(), E::Int(1))]),
+        ("eq_tnull", vec![eq(t.k(), u.k()), is_null(t.p())]),
+        ("or_common", vec![or(and(eq(t.k(), u.k()), eq(t.p(), E::Int(1))), and(eq(t.k(), u.k()), eq(u.p(), E::Int(0))))]),
+        ("loc", vec![eq(t.k(), E::Int(1))]),
+        ("none", vec![]),
+    ];
+    if thorough {
+        conds.push(("or", vec![or(eq(t.k(), u.k()), eq(t.p(), u.p()))]));
+        conds.push(("eq_or", vec![eq(t.k(), u.k()), or(eq(t.p(), E::Int(1)), eq(u.p(), E::Int(1)))]));
+        conds.push(("neq", vec![cmp("<>", t.k(), u.k())]));
+        conds.push(("eq_kp", vec![eq(t.k(), u.p())]));
+        conds.push(("eq_loc_t", vec![eq(t.k(), u.k()), cmp(">", t.p(), E::Int(0))]));
+        conds.push(("eq_unull", vec![eq(t.k(), u.k()), is_null(u.p())]));
+        conds.push(("ge", vec![cmp(">=", t.k(), u.k())]));
+        conds.push(("eq3", vec![eq(t.k(), u.k()), eq(t.p(), u.p()), eq(t.k(), E::Int(1))]));
+    }
+    if n.id == "innerbare" || n.id == "bothbare" {
+        conds.clear();
+    }
+    for (cid, parts) in &conds {
+        let class = format!("join[{}]", cid);
+        let full = and_all(parts.clone());
+        let fam = "join2";
+        c.add(fam, &class, "comma_tu", sel(tu_cols.clone(), j(JK::Comma, t.f(), u.f(), None), full.clone()));
+        c.add(fam, &class, "comma_ut", sel(tu_cols.clone(), j(JK::Comma, u.f(), t.f(), None), full.clone()));
+        c.add(fam, &class, "cross_tu", sel(tu_cols.clone(), j(JK::Cross, t.f(), u.f(), None), full.clone()));
+        c.add(fam, &class, "cross_ut", sel(tu_cols.clone(), j(JK::Cross, u.f(), t.f(), None), full.clone()));
+        c.add(fam, &class, "der_t", sel(tu_cols.clone(), j(JK::Comma, t.d(), u.f(), None), full.clone()));
+        c.add(fam, &class, "der_u", sel(tu_cols.clone(), j(JK::Comma, t.f(), u.d(), None), full.clone()));
+        c.add(fam, &class, "der_cols_ut", sel(tu_cols.clone(), j(JK::Comma, u.d_cols(), t.f(), None), full.clone()));
+        c.add(fam, &class, "star_tu", Q { distinct: false, sel: Sel::Star, from: j(JK::Comma, t.f(), u.f(), None), wh: full.clone() });
+        if let Some(fc) = &full {
+            c.add(fam, &class, "join_tu", sel(tu_cols.clone(), j(JK::Inner, t.f(), u.f(), Some(fc.clone())), None));
+            c.add(fam, &class, "join_ut", sel(tu_cols.clone(), j(JK::Inner, u.f(), t.f(), Some(fc.clone())), None));
+            c.add(fam, &class, "flip_comma", sel(tu_cols.clone(), j(JK::Comma, t.f(), u.f(), None), Some(flip(fc))));
+            c.add(fam, &class, "flip_join", sel(tu_cols.clone(), j(JK::Inner, t.f(), u.f(), Some(flip(fc))), None));
+            c.add(fam, &class, "der_both_join", sel(tu_cols.clone(), j(JK::Inner, t.d(), u.d(), Some(fc.clone())), None));
+            c.add(fam, &class, "star_join", Q { distinct: false, sel: Sel::Star, from: j(JK::Inner, t.f(), u.f(), Some(fc.clone())), wh: None });
+        }
+        if parts.len() >= 2 {
+            let rest = and_all(parts[1..].to_vec());
+            c.add(fam, &class, "on0_wh1", sel(tu_cols.clone(), j(JK::Inner, t.f(), u.f(), Some(parts[0].clone())), rest.clone()));
+            c.add(fam, &class, "on1_wh0", sel(tu_cols.clone(), j(JK::Inner, t.f(), u.f(), rest.clone()), Some(parts[0].clone())));
+            c.add(fam, &class, "on0_wh1_ut", sel(tu_cols.clone(), j(JK::Inner, u.f(), t.f(), Some(parts[0].clone())), rest.clone()));
+        }
+        if *cid == "eq" {
+            c.add(fam, &class, "not_neq", sel(tu_cols.clone(), j(JK::Comma, t.f(), u.f(), None), Some(not(cmp("<>", t.k(), u.k())))));
+            c.add(fam, &class, "eq_and_notnull", sel(tu_cols.clone(), j(JK::Comma, t.f(), u.f(), None), Some(and(eq(t.k(), u.k()), is_not_null(t.k())))));
+        }
+        // DISTINCT over a projection of both sides
+        let dclass = format!("djoin[{}]", cid);
+        let dcols = vec![t.k(), u.p()];
+        let dq = |from: F, wh: Option<E>| Q { distinct: true, sel: Sel::Cols(dcols.clone()), from, wh };
+        c.add(fam, &dclass, "comma_tu", dq(j(JK::Comma, t.f(), u.f(), None), full.clone()));
+        c.add(fam, &dclass, "comma_ut", dq(j(JK::Comma, u.f(), t.f(), None), full.clone()));
+        if let Some(fc) = &full {
+            c.add(fam, &dclass, "join_tu", dq(j(JK::Inner, t.f(), u.f(), Some(fc.clone())), None));
+        }
+    }
+
+    // ---------------------------------------------------------------- semi / anti joins
+    // inner filter f, outer conjunct g, extra correlation h
+    let innerbare = n.id == "innerbare" || n.id == "bothbare";
+    let u = &n.u_in;
+    let ti = &n.t_in;
+    let fs: Vec<(&str, Option<E>)> = vec![
+        ("-", None),
+        ("q1", Some(eq(u.p(), E::Int(1)))),
+        ("qnull", Some(is_null(u.p()))),
+        ("kgt0", Some(cmp(">", u.k(), E::Int(0)))),
+    ];
+    let gs: Vec<(&str, Option<E>)> = vec![("-", None), ("p1", Some(eq(t.p(), E::Int(1)))), ("pnull", Some(is_null(t.p())))];
+    let hs: Vec<(&str, Option<E>)> = vec![("-", None), ("corr", Some(eq(u.p(), ti.p())))];
+    let mut combos: Vec<(usize, usize, usize)> = vec![(0, 0, 0), (1, 0, 0), (3, 0, 0), (0, 1, 0), (0, 0, 1)];
+    if thorough {
+        combos.extend([(1, 2, 0), (2, 0, 0), (0, 2, 0), (1, 1, 0), (0, 1, 1), (1, 0, 1), (2, 1, 0), (3, 1, 0)]);
+    }
+    let t_cols = t.cols();
+    let one_zero = eq(E::Int(1), E::Int(0));
+    for (fi, gi, hi) in combos {
+        let (fid, f) = &fs[fi];
+        let (gid, g) = &gs[gi];
+        let (hid, h) = &hs[hi];
+        let tag = format!("{},{},{}", fid, gid, hid);
+        // inner WHERE of the IN form: f ∧ h ; of the EXISTS form: corr ∧ f ∧ h
+        let inner_extra: Vec<E> = f.iter().cloned().chain(h.iter().cloned()).collect();
+        let subq = |from: F, distinct: bool, extra_first: Vec<E>| Q {
+            distinct,
+            sel: Sel::Cols(vec![u.k()]),
+            from,
+            wh: and_all(extra_first.into_iter().chain(inner_extra.clone()).collect()),
+        };
+        let in_ = |neg: bool| E::InSub(Box::new(t.k()), Box::new(subq(u.f(), false, vec![])), neg);
+        let in_distinct = |neg: bool| E::InSub(Box::new(t.k()), Box::new(subq(u.f(), true, vec![])), neg);
+        let in_der = |neg: bool| E::InSub(Box::new(t.k()), Box::new(subq(u.d(), false, vec![])), neg);
+        let ex = |neg: bool| {
+            E::Exists(
+                Box::new(Q { distinct: false, sel: Sel::One, from: u.f(), wh: and_all(std::iter::once(eq(u.k(), ti.k())).chain(inner_extra.clone()).collect()) }),
+                neg,
+            )
+        };
+        let ex_star_flip = |neg: bool| {
+            E::Exists(
+                Box::new(Q { distinct: false, sel: Sel::Star, from: u.f(), wh: and_all(inner_extra.clone().into_iter().chain(std::iter::once(eq(ti.k(), u.k()))).collect()) }),
+                neg,
+            )
+        };
+        let ex_der = |neg: bool| {
+            E::Exists(
+                Box::new(Q { distinct: false, sel: Sel::One, from: u.d(), wh: and_all(std::iter::once(eq(u.k(), ti.k())).chain(inner_extra.clone()).collect()) }),
+                neg,
+            )
+        };
+        let with_g = |s: E, left: bool| -> Option<E> {
+            match g {
+                None => Some(s),
+                Some(ge) => Some(if left { and(ge.clone(), s) } else { and(s, ge.clone()) }),
+            }
+        };
+        let fam = "semi";
+        // ------------------------------------------------ semi
+        {
+            let class = format!("semi[{}]", tag);
+            let mut forms: Vec<(&str, E)> = vec![
+                ("in", in_(false)),
+                ("exists", ex(false)),
+                ("exists_star_flip", ex_star_flip(false)),
+                ("in_distinct", in_distinct(false)),
+                ("in_from_derived", in_der(false)),
+                ("exists_from_derived", ex_der(false)),
+                ("not_not_in", not(in_(true))),
+                ("not_not_exists", not(ex(true))),
+                ("in_or_false", or(in_(false), one_zero.clone())),
+                ("exists_or_false", or(ex(false), one_zero.clone())),
+                ("eq_any", E::Quant("=", false, Box::new(t.k()), Box::new(subq(u.f(), false, vec![])))),
+            ];
+            if thorough {
+                forms.push(("false_or_in", or(one_zero.clone(), in_(false))));
+                forms.push(("in_and_true", and(in_(false), eq(E::Int(1), E::Int(1)))));
+            }
+            for (mid, s) in &forms {
+                c.add(fam, &class, &format!("{}{}", mid, if g.is_some() { "_gR" } else { "" }), sel(t_cols.clone(), t.f(), with_g(s.clone(), false)));
+                if g.is_some() {
+                    c.add(fam, &class, &format!("{}_gL", mid), sel(t_cols.clone(), t.f(), with_g(s.clone(), true)));
+                }
+            }
+            for (mid, s) in forms.iter().take(2) {
+                c.add(fam, &class, &format!("{}_outer_derived", mid), sel(t_cols.clone(), t.d(), with_g(s.clone(), false)));
+                c.add(fam, &class, &format!("{}_star", mid), Q { distinct: false, sel: Sel::Star, from: t.f(), wh: with_g(s.clone(), false) });
+            }
+            // DISTINCT semi join as DISTINCT inner join
+            let dclass = format!("dsemi[{}]", tag);
+            let dq = |from: F, wh: Option<E>| Q { distinct: true, sel: Sel::Cols(t_cols.clone()), from, wh };
+            c.add(fam, &dclass, "in", dq(t.f(), with_g(in_(false), false)));
+            c.add(fam, &dclass, "exists", dq(t.f(), with_g(ex(false), false)));
+            if !innerbare {
+                let jc: Vec<E> = std::iter::once(eq(t.k(), u.k())).chain(inner_extra.clone()).chain(g.iter().cloned()).collect();
+                c.add(fam, &dclass, "comma_join", dq(j(JK::Comma, t.f(), u.f(), None), and_all(jc.clone())));
+                c.add(fam, &dclass, "join_on", dq(j(JK::Inner, t.f(), u.f(), and_all(jc.clone())), None));
+                c.add(fam, &dclass, "comma_join_ut", dq(j(JK::Comma, u.f(), t.f(), None), and_all(jc.clone())));
+            }
+        }
+        // ------------------------------------------------ anti, NOT IN meaning
+        {
+            let class = format!("antiin[{}]", tag);
+            let nullaware = E::Exists(
+                Box::new(Q {
+                    distinct: false,
+                    sel: Sel::One,
+                    from: u.f(),
+                    wh: and_all(std::iter::once(or(or(eq(u.k(), ti.k()), is_null(u.k())), is_null(ti.k()))).chain(inner_extra.clone()).collect()),
+                }),
+                true,
+            );
+            let mut forms: Vec<(&str, E)> = vec![
+                ("not_in", in_(true)),
+                ("not_exists_nullaware", nullaware),
+                ("not_paren_in", not(in_(false))),
+                ("not_in_distinct", in_distinct(true)),
+                ("not_in_from_derived", in_der(true)),
+                ("not_in_or_false", or(in_(true), one_zero.clone())),
+                ("neq_all", E::Quant("<>", true, Box::new(t.k()), Box::new(subq(u.f(), false, vec![])))),
+            ];
+            if thorough {
+                forms.push(("false_or_not_in", or(one_zero.clone(), in_(true))));
+            }
+            for (mid, s) in &forms {
+                c.add(fam, &class, &format!("{}{}", mid, if g.is_some() { "_gR" } else { "" }), sel(t_cols.clone(), t.f(), with_g(s.clone(), false)));
+                if g.is_some() {
+                    c.add(fam, &class, &format!("{}_gL", mid), sel(t_cols.clone(), t.f(), with_g(s.clone(), true)));
+                }
+            }
+            for (mid, s) in forms.iter().take(2) {
+                c.add(fam, &class, &format!("{}_outer_derived", mid), sel(t_cols.clone(), t.d(), with_g(s.clone(), false)));
+            }
+        }
+        // ------------------------------------------------ anti, NOT EXISTS meaning
+        {
+            let class = format!("antiex[{}]", tag);
+            let notnull_in = or(is_null(t.k()), E::InSub(Box::new(t.k()), Box::new(subq(u.f(), false, vec![is_not_null(u.k())])), true));
+            let mut forms: Vec<(&str, E)> = vec![
+                ("not_exists", ex(true)),
+                ("isnull_or_not_in_notnull", notnull_in),
+                ("not_paren_exists", not(ex(false))),
+                ("not_exists_star_flip", ex_star_flip(true)),
+                ("not_exists_from_derived", ex_der(true)),
+                ("not_exists_or_false", or(ex(true), one_zero.clone())),
+            ];
+            if thorough {
+                forms.push(("false_or_not_exists", or(one_zero.clone(), ex(true))));
+            }
+            for (mid, s) in &forms {
+                c.add(fam, &class, &format!("{}{}", mid, if g.is_some() { "_gR" } else { "" }), sel(t_cols.clone(), t.f(), with_g(s.clone(), false)));
+                if g.is_some() {
+                    c.add(fam, &class, &format!("{}_gL", mid), sel(t_cols.clone(), t.f(), with_g(s.clone(), true)));
+                }
+            }
+            for (mid, s) in forms.iter().take(2) {
+                c.add(fam, &class, &format!("{}_outer_derived", mid), sel(t_cols.clone(), t.d(), with_g(s.clone(), false)));
+            }
+        }
+    }
+
+    // ---------------------------------------------------------------- aggregate subqueries
+    // (an aggregate query without GROUP BY has exactly one row: not a semi join on its WHERE clause)
+    {
+        let fam = "semi";
+        let sub = |sel: Sel, wh: Option<E>| Box::new(Q { distinct: false, sel, from: u.f(), wh });
+        let ex_eq = |neg: bool| E::Exists(sub(Sel::One, Some(eq(u.k(), ti.k()))), neg);
+        let ex_gt = |neg: bool| E::Exists(sub(Sel::One, Some(cmp(">", u.k(), ti.k()))), neg);
+        let is_max = and(ex_eq(false), ex_gt(true));
+        let in_max = |neg: bool| E::InSub(Box::new(t.k()), sub(Sel::Max(u.k()), None), neg);
+        c.add(fam, "aggsub[in_max]", "in_max", sel(t_cols.clone(), t.f(), Some(in_max(false))));
+        c.add(fam, "aggsub[in_max]", "exists_eq_and_no_greater", sel(t_cols.clone(), t.f(), Some(is_max.clone())));
+        c.add(fam, "aggsub[in_max]", "eq_any_max", sel(t_cols.clone(), t.f(), Some(E::Quant("=", false, Box::new(t.k()), sub(Sel::Max(u.k()), None)))));
+        let some_key = E::Exists(sub(Sel::One, Some(is_not_null(u.k()))), false);
+        c.add(fam, "aggsub[not_in_max]", "not_in_max", sel(t_cols.clone(), t.f(), Some(in_max(true))));
+        c.add(fam, "aggsub[not_in_max]", "notnull_and_not_is_max", sel(t_cols.clone(), t.f(), Some(and(and(is_not_null(t.k()), some_key), not(is_max.clone())))));
+        let ex_count = |neg: bool| E::Exists(sub(Sel::CountStar, Some(eq(u.k(), ti.k()))), neg);
+        c.add(fam, "aggsub[exists_count]", "exists_count", sel(t_cols.clone(), t.f(), Some(ex_count(false))));
+        c.add(fam, "aggsub[exists_count]", "always_true", sel(t_cols.clone(), t.f(), Some(eq(E::Int(1), E::Int(1)))));
+        c.add(fam, "aggsub[exists_count]", "exists_max", sel(t_cols.clone(), t.f(), Some(E::Exists(sub(Sel::Max(u.k()), Some(eq(u.k(), ti.k()))), false))));
+        c.add(fam, "aggsub[not_exists_count]", "not_exists_count", sel(t_cols.clone(), t.f(), Some(ex_count(true))));
+        c.add(fam, "aggsub[not_exists_count]", "always_false", sel(t_cols.clone(), t.f(), Some(one_zero.clone())));
+    }
+
+    // ---------------------------------------------------------------- three tables
+    let u = &n.u;
+    if !n.self_join && !innerbare {
+        let tuw_cols: Vec<E> = [t.cols(), u.cols(), w.cols()].concat();
+        // parts tagged with the pair of tables they connect: 0 = t-u, 1 = involves w
+        let mut conds3: Vec<(&str, Vec<(u8, E)>)> = vec![
+            ("chain", vec![(0, eq(t.k(), u.k())), (1, eq(u.k(), w.k()))]),
+            ("star", vec![(0, eq(t.k(), u.k())), (1, eq(t.p(), w.k()))]),
+            ("one_cross", vec![(0, eq(t.k(), u.k()))]),
+            ("eq_lt", vec![(0, eq(t.k(), u.k())), (1, cmp("<", u.p(), w.k()))]),
+            ("eq_or3", vec![(0, eq(t.k(), u.k())), (1, or(eq(u.p(), w.k()), eq(t.p(), w.k())))]),
+        ];
+        if thorough {
+            conds3.push(("chain_loc", vec![(0, eq(t.k(), u.k())), (1, eq(u.k(), w.k())), (0, eq(t.p(), E::Int(1)))]));
+            conds3.push(("tri", vec![(0, eq(t.k(), u.k())), (1, eq(u.k(), w.k())), (1, eq(t.k(), w.k()))]));
+            conds3.push(("cross3", vec![]));
+            conds3.push(("w_only", vec![(1, eq(t.k(), w.k()))]));
+        }
+        let items = [("t", t), ("u", u), ("w", w)];
+        let perms: [[usize; 3]; 6] = [[0, 1, 2], [0, 2, 1], [1, 0, 2], [1, 2, 0], [2, 0, 1], [2, 1, 0]];
+        for (cid, parts) in &conds3 {
+            let class = format!("join3[{}]", cid);
+            let fam = "join3";
+            let full = and_all(parts.iter().map(|(_, e)| e.clone()).collect());
+            for p in perms.iter() {
+                let id: String = p.iter().map(|i| items[*i].0).collect::<Vec<_>>().join("");
+                let from = j(JK::Comma, j(JK::Comma, items[p[0]].1.f(), items[p[1]].1.f(), None), items[p[2]].1.f(), None);
+                c.add(fam, &class, &format!("comma_{}", id), sel(tuw_cols.clone(), from, full.clone()));
+            }
+            let cross = j(JK::Cross, j(JK::Cross, t.f(), u.f(), None), w.f(), None);
+            c.add(fam, &class, "cross_tuw", sel(tuw_cols.clone(), cross, full.clone()));
+            c.add(fam, &class, "star_tuw", Q { distinct: false, sel: Sel::Star, from: j(JK::Comma, j(JK::Comma, t.f(), u.f(), None), w.f(), None), wh: full.clone() });
+            c.add(fam, &class, "der_u_tuw", sel(tuw_cols.clone(), j(JK::Comma, j(JK::Comma, t.f(), u.d(), None), w.f(), None), full.clone()));
+            c.add(fam, &class, "der_t_wut", sel(tuw_cols.clone(), j(JK::Comma, j(JK::Comma, w.f(), u.f(), None), t.d(), None), full.clone()));
+            let on_tu = and_all(parts.iter().filter(|(k, _)| *k == 0).map(|(_, e)| e.clone()).collect());
+            let on_w = and_all(parts.iter().filter(|(k, _)| *k == 1).map(|(_, e)| e.clone()).collect());
+            if let (Some(a), Some(b)) = (&on_tu, &on_w) {
+                let chain = j(JK::Inner, j(JK::Inner, t.f(), u.f(), Some(a.clone())), w.f(), Some(b.clone()));
+                c.add(fam, &class, "join_chain", sel(tuw_cols.clone(), chain, None));
+                let mixed = j(JK::Comma, j(JK::Inner, t.f(), u.f(), Some(a.clone())), w.f(), None);
+                c.add(fam, &class, "join_then_comma", sel(tuw_cols.clone(), mixed, Some(b.clone())));
+            }
+            if let Some(fc) = &full {
+                c.add(fam, &class, "flip_comma_uwt", sel(tuw_cols.clone(), j(JK::Comma, j(JK::Comma, u.f(), w.f(), None), t.f(), None), Some(flip(fc))));
+            }
+        }
+        // semi / anti join below a two-table outer query
+        let tw_cols: Vec<E> = [t.cols(), vec![w.k()]].concat();
+        let inq = |neg: bool| E::InSub(Box::new(t.k()), Box::new(Q { distinct: false, sel: Sel::Cols(vec![u.k()]), from: u.f(), wh: None }), neg);
+        let exq = |neg: bool| E::Exists(Box::new(Q { distinct: false, sel: Sel::One, from: u.f(), wh: Some(eq(u.k(), t.k())) }), neg);
+        let nullaware = E::Exists(
+            Box::new(Q { distinct: false, sel: Sel::One, from: u.f(), wh: Some(or(or(eq(u.k(), t.k()), is_null(u.k())), is_null(t.k()))) }),
+            true,
+        );
+        let groups: Vec<(&str, Vec<(&str, E)>)> = vec![
+            ("semi3", vec![("in", inq(false)), ("exists", exq(false))]),
+            ("antiin3", vec![("not_in", inq(true)), ("not_exists_nullaware", nullaware)]),
+            ("antiex3", vec![("not_exists", exq(true)), ("not_paren_exists", not(exq(false)))]),
+        ];
+        for (class, forms) in &groups {
+            for (mid, s) in forms {
+                let jc = eq(t.k(), w.k());
+                c.add("semi3", class, &format!("{}_comma_tw", mid), sel(tw_cols.clone(), j(JK::Comma, t.f(), w.f(), None), Some(and(jc.clone(), s.clone()))));
+                c.add("semi3", class, &format!("{}_comma_wt_subfirst", mid), sel(tw_cols.clone(), j(JK::Comma, w.f(), t.f(), None), Some(and(s.clone(), jc.clone()))));
+                c.add("semi3", class, &format!("{}_join_tw", mid), sel(tw_cols.clone(), j(JK::Inner, t.f(), w.f(), Some(jc.clone())), Some(s.clone())));
+            }
+        }
+    }
+    c.out
+}
+
+// =============================================================================================
+// databases
+// =============================================================================================
+
+const DOM: [Val; 3] = [Val::Null, Val::Int(0), Val::Int(1)];
+
+/// All row multisets of size ≤ n over k ∈ DOM × p ∈ (DOM if full else {0}), smallest first.
+fn row_bags(n: usize, full: bool) -> Vec<Vec<Vec<Val>>> {
+    let mut rows: Vec<Vec<Val>> = vec![];
+    for k in DOM {
+        if full {
+            for p in DOM {
+                rows.push(vec![k, p]);
+            }
+        } else {
+            rows.push(vec![k, Val::Int(0)]);
+        }
+    }
+    let mut out = vec![];
+    for size in 0..=n {
+        for ms in util::multisets(rows.len(), size) {
+            out.push(ms.iter().map(|i| rows[*i].clone()).collect());
+        }
+    }
+    out
+}
+
+fn lit(v: &Val) -> String {
+    match v {
+        Val::Null => "NULL".into(),
+        Val::Int(i) => i.to_string(),
+    }
+}
+
+/// SQL that builds the database for a schema (tables first, then rows, then indexes).
+fn setup_sql(schema: &str, data: &[Vec<Vec<Val>>; 3], index: &str, n: &Names) -> Vec<String> {
+    let sc = schema_cols(schema);
+    let mut out = vec![];
+    for (name, cols) in sc.iter() {
+        out.push(format!("CREATE TABLE {} ({} INT, {} INT)", name, cols[0], cols[1]));
+    }
+    for (i, (name, _)) in sc.iter().enumerate() {
+        if !data[i].is_empty() {
+            let vals: Vec<String> = data[i].iter().map(|r| format!("({}, {})", lit(&r[0]), lit(&r[1]))).collect();
+            out.push(format!("INSERT INTO {} VALUES {}", name, vals.join(", ")));
+        }
+    }
+    let inner = (&n.u.name, &n.u.k);
+    let outer = (&n.t.name, &n.t.k);
+    let mut idx: Vec<(&String, &String)> = vec![];
+    match index {
+        "none" => {}
+        "inner_key" => idx.push(inner),
+        "outer_key" => idx.push(outer),
+        "both_keys" => {
+            idx.push(inner);
+            if outer != inner {
+                idx.push(outer)
+            }
+        }
+        other => panic!("unknown index variant {}", other),
+    }
+    for (k, (tn, cn)) in idx.iter().enumerate() {
+        out.push(format!("CREATE INDEX ix{} ON {} ({})", k, tn, cn));
+    }
+    out
+}
+
+fn arbiter_db(schema: &str, data: &[Vec<Vec<Val>>; 3]) -> Db {
+    let mut db = Db::new();
+    for (i, (name, cols)) in schema_cols(schema).iter().enumerate() {
+        db.insert(name.to_string(), Table { cols: cols.iter().map(|s| s.to_string()).collect(), rows: data[i].clone() });
+    }
+    db
+}
+
+fn build_engine(stmts: &[String]) -> Result<Database, String> {
+    let mut db = Database::new();
+    for s in stmts {
+        let o = exec::exec(&mut db, s);
+        if !o.is_ok() {
+            return Err(format!("setup statement failed: {} => {}", s, o.brief()));
+        }
+    }
+    Ok(db)
+}
+
+fn run_member(db: &Database, m: &Member) -> Out {
+    match &m.stmt {
+        Some(s) => exec::select_stmt(db, s),
+        None => exec::select(db, &m.sql),
+    }
+}
+
+fn to_nv(b: &[Vec<Val>]) -> Vec<Vec<NV>> {
+    b.iter()
+        .map(|r| {
+            r.iter()
+                .map(|v| match v {
+                    Val::Null => NV::Null,
+                    Val::Int(i) => NV::Int(*i as i128),
+                })
+                .collect()
+        })
+        .collect()
+}
+
+// =============================================================================================
+// the run
+// =============================================================================================
+
+/// What is enumerated for one footprint group (a group = the classes whose conditions look at the
+/// same payload columns; columns nobody looks at are held constant, which loses nothing).
+#[derive(Clone, Debug)]
+struct Scope {
+    /// max rows of t, u, w
+    rows: (usize, usize, usize),
+    /// max total rows of a database
+    total: usize,
+    namings: Vec<&'static str>,
+    indexes: Vec<&'static str>,
+}
+
+struct Bounds {
+    thorough: bool,
+    /// every naming any group uses (catalogues are built for these)
+    namings: Vec<&'static str>,
+    dev_rows: Option<(usize, usize, usize, usize)>,
+}
+
+fn bounds(tier: &str) -> Bounds {
+    if tier == "thorough" {
+        Bounds { thorough: true, namings: vec!["qual", "alias", "prefix", "self", "innerbare", "bothbare", "fkstyle"], dev_rows: None }
+    } else {
+        Bounds { thorough: false, namings: vec!["qual", "prefix", "bothbare"], dev_rows: None }
+    }
+}
+
+impl Bounds {
+    /// `weight` = number of payload columns the group's conditions look at.
+    /// One engine query costs 0.2–5 ms (a zeroed 10 MB arena per SelectExecutor, i.e. per query and per
+    /// correlated-subquery evaluation), so the scopes are chosen by the number of executions they cost.
+    fn scope(&self, three: bool, weight: usize) -> Scope {
+        let mut sc = if self.thorough {
+            match (three, weight) {
+                (false, 0) => Scope { rows: (3, 3, 0), total: 6, namings: vec!["qual", "alias", "prefix", "self", "innerbare", "bothbare"], indexes: vec!["none", "inner_key", "outer_key", "both_keys"] },
+                (false, 1) => Scope { rows: (3, 3, 0), total: 3, namings: vec!["qual", "prefix", "self", "innerbare", "bothbare", "fkstyle"], indexes: vec!["none", "inner_key"] },
+                (false, _) => Scope { rows: (2, 2, 0), total: 3, namings: vec!["qual", "fkstyle"], indexes: vec!["none", "inner_key"] },
+                (true, 0) => Scope { rows: (2, 2, 2), total: 4, namings: vec!["qual", "alias", "prefix"], indexes: vec!["none", "inner_key", "both_keys"] },
+                (true, 1) => Scope { rows: (2, 2, 2), total: 3, namings: vec!["qual", "prefix"], indexes: vec!["none", "inner_key"] },
+                (true, _) => Scope { rows: (1, 1, 1), total: 3, namings: vec!["qual", "prefix"], indexes: vec!["none", "inner_key"] },
+            }
+        } else {
+            match (three, weight) {
+                (false, 0) => Scope { rows: (2, 2, 0), total: 3, namings: vec!["qual", "prefix", "bothbare"], indexes: vec!["none", "inner_key"] },
+                (false, 1) => Scope { rows: (2, 2, 0), total: 2, namings: vec!["qual"], indexes: vec!["none", "inner_key"] },
+                (false, _) => Scope { rows: (1, 1, 0), total: 2, namings: vec!["qual"], indexes: vec!["none", "inner_key"] },
+                (true, 0) => Scope { rows: (2, 2, 1), total: 3, namings: vec!["qual"], indexes: vec!["none", "inner_key"] },
+                (true, _) => Scope { rows: (1, 1, 1), total: 3, namings: vec!["qual"], indexes: vec!["inner_key"] },
+            }
+        };
+        if let Some((a, b, c, t)) = self.dev_rows {
+            sc.rows = (a, b, if three { c } else { 0 });
+            sc.total = t;
+        }
+        sc
+    }
+}
+
+#[derive(Default)]
+struct Stats {
+    t_arbiter: f64,
+    t_build: f64,
+    t_exec: f64,
+    evaluations: u64,
+    ok: u64,
+    err: u64,
+    panic: u64,
+    nonempty_expected: u64,
+    failing: u64,
+    arbiter_evals: u64,
+    outcomes: HashSet<u64>,
+    err_members: BTreeMap<String, u64>,
+    per_family: BTreeMap<&'static str, u64>,
+}
+
+struct Found {
+    order: (usize, usize),
+    sig: Vec<(&'static str, String)>,
+    what: String,
+    case: Value,
+}
+
+struct Work {
+    group: usize,
+    data: [Vec<Vec<Val>>; 3],
+}
+
+pub fn run(tier: &str) -> i32 {
+    let mut rep = Report::new("C05", tier, "model_checking");
+    let mut b = bounds(tier);
+    if let Ok(v) = std::env::var("VERIF_C05_ROWS") {
+        // development only: "nt,nu,nw,total"
+        let p: Vec<usize> = v.split(',').filter_map(|x| x.parse().ok()).collect();
+        if p.len() == 4 {
+            b.dev_rows = Some((p[0], p[1], p[2], p[3]));
+            rep.set("development_rows_override", json!(v));
+        }
+    }
+    vibesql_types::verif::reset();
+
+    // catalogue per naming, grouped by footprint
+    let fam_filter: Option<Vec<String>> = std::env::var("VERIF_C05_FAMILY").ok().map(|s| s.split(',').map(|x| x.to_string()).collect());
+    let cats: Vec<(Names, Vec<Member>)> = b
+        .namings
+        .iter()
+        .map(|id| {
+            let n = names(id);
+            let mut c = catalogue(&n, b.thorough);
+            if let Some(ff) = &fam_filter {
+                c.retain(|m| ff.iter().any(|f| f == m.family));
+            }
+            (n, c)
+        })
+        .collect();
+    if fam_filter.is_some() {
+        rep.set("development_filter", json!(fam_filter));
+    }
+
+    // sanity: rendered SQL must be unique within a naming's class (otherwise a "member" adds nothing)
+    let mut classes: BTreeSet<String> = BTreeSet::new();
+    let mut n_members = 0usize;
+    for (_, cat) in &cats {
+        for m in cat {
+            classes.insert(m.class.clone());
+            n_members += 1;
+        }
+    }
+
+    // footprint groups: key = (family is 3-table?, foot) -> per naming the member indices
+    let mut group_keys: Vec<[bool; 4]> = vec![];
+    for (_, cat) in &cats {
+        for m in cat {
+            if !group_keys.contains(&m.foot) {
+                group_keys.push(m.foot);
+            }
+        }
+    }
+    group_keys.sort();
+    let group_members: Vec<Vec<Vec<usize>>> = group_keys
+        .iter()
+        .map(|g| cats.iter().map(|(_, cat)| cat.iter().enumerate().filter(|(_, m)| m.foot == *g).map(|(i, _)| i).collect()).collect())
+        .collect();
+
+    // work items: group × database, smallest databases first within a group
+    let mut work: Vec<Work> = vec![];
+    let mut dbs_per_group: Vec<usize> = vec![];
+    let scopes: Vec<Scope> = group_keys.iter().map(|g| b.scope(g[2], g[0] as usize + g[1] as usize + g[3] as usize)).collect();
+    for (gi, g) in group_keys.iter().enumerate() {
+        let three = g[2];
+        let (nt, nu, nw) = scopes[gi].rows;
+        let tb = row_bags(nt, g[0]);
+        let ub = row_bags(nu, g[1]);
+        let wb = if three { row_bags(nw, g[3]) } else { vec![vec![]] };
+        let mut items: Vec<Work> = vec![];
+        let cap = scopes[gi].total;
+        for tr in &tb {
+            for ur in &ub {
+                for wr in &wb {
+                    if tr.len() + ur.len() + wr.len() <= cap {
+                        items.push(Work { group: gi, data: [tr.clone(), ur.clone(), wr.clone()] });
+                    }
+                }
+            }
+        }
+        items.sort_by_key(|w| w.data[0].len() + w.data[1].len() + w.data[2].len());
+        dbs_per_group.push(items.len());
+        work.extend(items);
+    }
+    // interleave groups so that the global order is also "small databases first"
+    work.sort_by_key(|w| w.data[0].len() + w.data[1].len() + w.data[2].len());
+
+    if std::env::var("VERIF_C05_DRY").is_ok() {
+        let mut total = 0usize;
+        for (gi, g) in group_keys.iter().enumerate() {
+            let per_db: usize = cats.iter().enumerate().filter(|(_, (n, _))| scopes[gi].namings.contains(&n.id)).map(|(ni, (n, _))| {
+                let idx = if n.self_join { scopes[gi].indexes.iter().filter(|i| **i == "none" || **i == "inner_key").count() } else if !b.thorough && n.id != "qual" { 1 } else { scopes[gi].indexes.len() };
+                group_members[gi][ni].len() * idx
+            }).collect::<Vec<_>>().iter().sum();
+            let fam: BTreeSet<&str> = cats[0].1.iter().filter(|m| m.foot == *g).map(|m| m.family).collect();
+            println!("group {:?} families {:?} scope {:?}: {} dbs x {} member-executions per db = {}", g, fam, scopes[gi], dbs_per_group[gi], per_db, dbs_per_group[gi] * per_db);
+            total += dbs_per_group[gi] * per_db;
+        }
+        println!("total planned executions (upper bound; self-join naming skips dbs with u rows): {}", total);
+        return 0;
+    }
+    let stats = Mutex::new(Stats::default());
+    let found: Mutex<HashMap<String, Found>> = Mutex::new(HashMap::new());
+    let mach: Mutex<Vec<String>> = Mutex::new(vec![]);
+    let samples: Mutex<Vec<Value>> = Mutex::new(vec![]);
+    let deadline_hit = AtomicU64::new(0);
+    let budget_s: f64 = std::env::var("VERIF_C05_BUDGET_S").ok().and_then(|s| s.parse().ok()).unwrap_or(if b.thorough { 840.0 } else { 1e9 });
+    let start = std::time::Instant::now();
+    let done_items = AtomicU64::new(0);
+
+    util::par_map(&work, |wi, w| {
+        if start.elapsed().as_secs_f64() > budget_s {
+            deadline_hit.fetch_add(1, Ordering::Relaxed);
+            return;
+        }
+        let mut st = Stats::default();
+        let mut item_cut = false;
+        for (ni, (n, cat)) in cats.iter().enumerate() {
+            let members = &group_members[w.group][ni];
+            let scope = &scopes[w.group];
+            if members.is_empty() || !scope.namings.contains(&n.id) {
+                continue;
+            }
+            if n.self_join && !w.data[1].is_empty() {
+                continue; // u is t: the u rows do not exist in this variant
+            }
+            let t0 = std::time::Instant::now();
+            let adb = arbiter_db(n.schema, &w.data);
+            // expected bags by the definitional evaluator, and agreement within each class
+            let mut expected: Vec<Option<Vec<Vec<NV>>>> = Vec::with_capacity(members.len());
+            let mut class_expect: HashMap<&str, (usize, Vec<Vec<Val>>)> = HashMap::new();
+            for &mi in members {
+                let m = &cat[mi];
+                st.arbiter_evals += 1;
+                match mini::bag_of(&adb, &m.q) {
+                    Ok(bag) => {
+                        match class_expect.get(m.class.as_str()) {
+                            None => {
+                                class_expect.insert(m.class.as_str(), (mi, bag.clone()));
+                            }
+                            Some((first, fb)) => {
+                                if *fb != bag {
+                                    let mut me = mach.lock().unwrap();
+                                    if me.len() < 5 {
+                                        me.push(format!(
+                                            "the definitional evaluator disagrees inside class {} (naming {}): `{}` = {} but `{}` = {} on data {:?}",
+                                            m.class, n.id, cat[*first].sql, mini::fmt_bag(fb), m.sql, mini::fmt_bag(&bag), w.data
+                                        ));
+                                    }
+                                }
+                            }
+                        }
+                        expected.push(Some(to_nv(&bag)));
+                    }
+                    Err(e) => {
+                        let mut me = mach.lock().unwrap();
+                        if me.len() < 5 {
+                            me.push(format!("definitional evaluator undefined on `{}` (naming {}): {}", m.sql, n.id, e));
+                        }
+                        expected.push(None);
+                    }
+                }
+            }
+            st.t_arbiter += t0.elapsed().as_secs_f64();
+            for (xi, index) in scope.indexes.iter().enumerate() {
+                if n.self_join && (*index == "outer_key" || *index == "both_keys") {
+                    continue; // identical to inner_key
+                }
+                if !b.thorough && n.id != "qual" && *index != "inner_key" {
+                    continue; // quick tier: the other namings run on the indexed database only
+                }
+                if start.elapsed().as_secs_f64() > budget_s {
+                    item_cut = true;
+                    break;
+                }
+                let t1 = std::time::Instant::now();
+                let stmts = setup_sql(n.schema, &w.data, index, n);
+                let built = build_engine(&stmts);
+                st.t_build += t1.elapsed().as_secs_f64();
+                let t2 = std::time::Instant::now();
+                let db = match built {
+                    Ok(d) => d,
+                    Err(e) => {
+                        let mut me = mach.lock().unwrap();
+                        if me.len() < 5 {
+                            me.push(e);
+                        }
+                        continue;
+                    }
+                };
+                for (pos, &mi) in members.iter().enumerate() {
+                    let m = &cat[mi];
+                    let Some(exp) = &expected[pos] else { continue };
+                    let out = run_member(&db, m);
+                    st.evaluations += 1;
+                    *st.per_family.entry(m.family).or_default() += 1;
+                    if !exp.is_empty() {
+                        st.nonempty_expected += 1;
+                    }
+                    let (bad, kind, got) = match &out {
+                        Out::Rows(r) => {
+                            st.ok += 1;
+                            let g = val::bag(r);
+                            st.outcomes.insert(hash_bag(&g));
+                            (g != *exp, "wrong_rows", val::fmt_bag(&g))
+                        }
+                        Out::Err(_, msg) => {
+                            st.err += 1;
+                            *st.err_members.entry(format!("{}/{}/{}", n.id, m.class, m.member)).or_default() += 1;
+                            let _ = msg;
+                            (false, "err", String::new())
+                        }
+                        Out::Panic(p) => {
+                            st.panic += 1;
+                            (true, "panic", format!("PANIC {}", util::trunc(p, 120)))
+                        }
+                        other => (true, "not_rows", other.brief()),
+                    };
+                    if bad {
+                        st.failing += 1;
+                        let sig: Vec<(&'static str, String)> = vec![
+                            ("kind", kind.to_string()),
+                            ("class", m.class.clone()),
+                            ("member", m.member.clone()),
+                            ("naming", n.id.to_string()),
+                            ("index", index.to_string()),
+                            ("shape", m.shape.clone()),
+                            ("subq", m.subq.clone()),
+                        ];
+                        let key = sig.iter().map(|(k, v)| format!("{}={}", k, v)).collect::<Vec<_>>().join(";");
+                        let order = (wi, ni * 16 + xi);
+                        let mut f = found.lock().unwrap();
+                        let better = match f.get(&key) {
+                            None => true,
+                            Some(old) => order < old.order,
+                        };
+                        if better {
+                            // re-execute twice from scratch (R3)
+                            let mut obs = vec![];
+                            for _ in 0..2 {
+                                match build_engine(&stmts) {
+                                    Ok(d2) => obs.push(match exec::select(&d2, &m.sql) {
+                                        Out::Rows(r) => val::fmt_bag(&val::bag(&r)),
+                                        Out::Panic(p) => format!("PANIC {}", util::trunc(&p, 120)),
+                                        o => o.brief(),
+                                    }),
+                                    Err(e) => obs.push(e),
+                                }
+                            }
+                            if obs.iter().any(|o| *o != got) {
+                                let mut me = mach.lock().unwrap();
+                                if me.len() < 5 {
+                                    me.push(format!("observation not reproducible for `{}`: first {} then {:?}", m.sql, got, obs));
+                                }
+                            } else {
+                                let class_sql: BTreeMap<String, String> = cat.iter().filter(|x| x.class == m.class).map(|x| (x.member.clone(), x.sql.clone())).collect();
+                                let expected_json: Vec<Vec<Value>> = exp.iter().map(|r| r.iter().map(nv_json).collect()).collect();
+                                let case = json!({
+                                    "setup": stmts,
+                                    "query": m.sql,
+                                    "expected_bag": expected_json,
+                                    "class": m.class,
+                                    "class_members": class_sql,
+                                    "naming": n.id,
+                                    "index": index,
+                                });
+                                let what = format!(
+                                    "`{}` returned {} but the definitional nested-loop evaluation (and every correct member of class {}) gives {}; data t={} u={} w={}",
+                                    m.sql,
+                                    got,
+                                    m.class,
+                                    val::fmt_bag(exp),
+                                    mini::fmt_bag(&w.data[0]),
+                                    mini::fmt_bag(&w.data[1]),
+                                    mini::fmt_bag(&w.data[2]),
+                                );
+                                f.insert(key, Found { order, sig, what, case });
+                            }
+                        }
+                    }
+                }
+                st.t_exec += t2.elapsed().as_secs_f64();
+            }
+        }
+        // a few samples of what a case looks like
+        if wi % 997 == 3 {
+            let mut s = samples.lock().unwrap();
+            if s.len() < 6 {
+                let (n, cat) = &cats[0];
+                if let Some(&mi) = group_members[w.group][0].first() {
+                    s.push(json!({"setup": setup_sql(n.schema, &w.data, scopes[w.group].indexes[scopes[w.group].indexes.len() - 1], n), "query": cat[mi].sql, "class": cat[mi].class}));
+                }
+            }
+        }
+        if item_cut {
+            deadline_hit.fetch_add(1, Ordering::Relaxed);
+        } else {
+            done_items.fetch_add(1, Ordering::Relaxed);
+        }
+        let mut g = stats.lock().unwrap();
+        g.evaluations += st.evaluations;
+        g.ok += st.ok;
+        g.err += st.err;
+        g.panic += st.panic;
+        g.nonempty_expected += st.nonempty_expected;
+        g.failing += st.failing;
+        g.arbiter_evals += st.arbiter_evals;
+        g.t_arbiter += st.t_arbiter;
+        g.t_build += st.t_build;
+        g.t_exec += st.t_exec;
+        let d = done_items.load(Ordering::Relaxed);
+        if d % 2000 == 0 && std::env::var("VERIF_PROGRESS").is_ok() {
+            eprintln!("  .. {} of {} items, {} executions, {:.0}s", d, work.len(), g.evaluations, start.elapsed().as_secs_f64());
+        }
+        g.outcomes.extend(st.outcomes);
+        for (k, v) in st.err_members {
+            *g.err_members.entry(k).or_default() += v;
+        }
+        for (k, v) in st.per_family {
+            *g.per_family.entry(k).or_default() += v;
+        }
+    });
+
+    let st = stats.into_inner().unwrap();
+    let capped = deadline_hit.load(Ordering::Relaxed);
+    let (reach, _) = vcore::report::reach_json(&["join_reorder", "subquery_to_join", "in_subquery_index", "index_scan"]);
+
+    // which mechanism each formulation steers through: one sequential pass over one fixed database
+    let per_member_reach = reach_attribution(&cats, &b);
+
+    for m in mach.into_inner().unwrap() {
+        rep.machinery_error(m);
+    }
+    let mut fv: Vec<Found> = found.into_inner().unwrap().into_values().collect();
+    fv.sort_by_key(|f| f.order);
+    let n_sig = fv.len();
+    for f in fv {
+        let sig: Vec<(&str, String)> = f.sig.iter().map(|(k, v)| (*k, v.clone())).collect();
+        rep.violation(&sig, f.what, f.case);
+    }
+    // total_failing_cases counts signatures above; record the real number of failing executions too
+    rep.set("failing_executions", json!(st.failing));
+    rep.set("failing_signatures", json!(n_sig));
+    rep.set("evaluations", json!(st.evaluations));
+    rep.set("distinct_nontrivial", json!(st.nonempty_expected));
+    rep.set(
+        "rule",
+        json!("every (database, naming, index variant, class member) of the stated bounds is executed once; all are distinct by construction; a case is non-trivial when the definitional evaluator's expected bag is non-empty"),
+    );
+    rep.set("states", json!(work.len()));
+    rep.set("transitions", json!(st.evaluations));
+    rep.set("traces_validated_against_impl", json!(st.evaluations));
+    rep.set("exhaustive", json!(capped == 0));
+    if capped > 0 {
+        rep.set("capped", json!(format!("time budget of {} s reached: {} of {} (group,database) items were not run or not completed; items are dispatched in order of database size, so what was covered is a prefix of that order (up to the threads in flight)", budget_s, capped, work.len())));
+    }
+    rep.set("databases_group_items", json!(work.len()));
+    rep.set("items_completed", json!(done_items.load(Ordering::Relaxed)));
+    rep.set("bounds", json!({"domain": ["NULL", 0, 1], "per_group": group_keys.iter().zip(scopes.iter()).zip(dbs_per_group.iter()).map(|((g, sc), n)| json!({
+        "conditions_look_at": {"t.p": g[0], "u.p": g[1], "w": g[2], "w.p": g[3]},
+        "max_rows_t_u_w": [sc.rows.0, sc.rows.1, sc.rows.2], "max_total_rows": sc.total, "namings": sc.namings, "indexes": sc.indexes, "databases": n})).collect::<Vec<_>>()}));
+    rep.set("classes", json!(classes.len()));
+    rep.set("members_all_namings", json!(n_members));
+    rep.set("outcome_classes", json!({"ok": st.ok, "err": st.err, "panic": st.panic}));
+    rep.set("distinct_result_bags", json!(st.outcomes.len()));
+    rep.set("arbiter_evaluations", json!(st.arbiter_evals));
+    rep.set("cpu_seconds", json!({"arbiter": st.t_arbiter, "build_databases": st.t_build, "engine_queries": st.t_exec}));
+    rep.set("executions_per_family", json!(st.per_family));
+    rep.set("members_rejected_by_engine", json!(st.err_members));
+    rep.set("reach", reach);
+    rep.set("reach_by_formulation", per_member_reach.0);
+    rep.set("vacuous_mechanisms", per_member_reach.1);
+    rep.set("samples", json!(samples.into_inner().unwrap()));
+    rep.assume("the definitional evaluator in harness/meta/src/mini.rs is the meaning of the query families (nested loops, three-valued logic by truth table); it is cross-checked on every database by requiring that it gives the same bag for all members of a class");
+    rep.assume("a member the engine rejects with an error is counted (members_rejected_by_engine) but is not a violation: the property speaks about results");
+    println!(
+        "C05 {}: {} (group,db) items, {} executions ({} ok / {} err / {} panic), {} non-trivial, {} distinct result bags, {} classes, {} members, failing executions {} in {} signatures",
+        tier,
+        work.len(),
+        st.evaluations,
+        st.ok,
+        st.err,
+        st.panic,
+        st.nonempty_expected,
+        st.outcomes.len(),
+        classes.len(),
+        n_members,
+        st.failing,
+        n_sig
+    );
+    if !st.err_members.is_empty() {
+        println!("  members the engine rejects (not violations): {:?}", st.err_members.iter().take(8).collect::<Vec<_>>());
+    }
+    rep.finish()
+}
+
+fn hash_bag(b: &[Vec<NV>]) -> u64 {
+    use std::hash::{Hash, Hasher};
+    #[allow(deprecated)]
+    let mut h = std::hash::SipHasher::new_with_keys(7, 11);
+    b.hash(&mut h);
+    h.finish()
+}
+
+fn nv_json(v: &NV) -> Value {
+    match v {
+        NV::Null => Value::Null,
+        NV::Int(i) => json!(*i as i64),
+        other => json!(val::fmt_nv(other)),
+    }
+}
+
+/// Sequential pass: for every formulation (class member id) which reach counters move when it is
+/// executed on one fixed database with an index on the inner key. Returns (map, expected-but-never).
+fn reach_attribution(cats: &[(Names, Vec<Member>)], b: &Bounds) -> (Value, Value) {
+    let data: [Vec<Vec<Val>>; 3] = [
+        vec![vec![Val::Null, Val::Int(0)], vec![Val::Int(1), Val::Int(1)]],
+        vec![vec![Val::Int(1), Val::Int(1)], vec![Val::Null, Val::Int(0)]],
+        vec![vec![Val::Int(1), Val::Int(0)]],
+    ];
+    let mut by_site: BTreeMap<String, BTreeSet<String>> = BTreeMap::new();
+    let mut totals: BTreeMap<String, u64> = BTreeMap::new();
+    for (n, cat) in cats {
+        let _ = b;
+        let idx = "inner_key";
+        let Ok(db) = build_engine(&setup_sql(n.schema, &data, idx, n)) else { continue };
+        for m in cat {
+            let before = vibesql_types::verif::snapshot();
+            let _ = exec::select(&db, &m.sql);
+            let after = vibesql_types::verif::snapshot();
+            for ((site, a), (_, bb)) in after.iter().zip(before.iter()) {
+                if a > bb {
+                    by_site.entry(site.to_string()).or_default().insert(format!("{}:{}", m.class.split('[').next().unwrap_or(""), m.member));
+                    *totals.entry(site.to_string()).or_default() += 1;
+                }
+            }
+        }
+    }
+    let mut out = serde_json::Map::new();
+    for (site, ms) in &by_site {
+        out.insert(site.clone(), json!({"formulations": ms.len(), "member_executions": totals[site], "examples": ms.iter().take(12).collect::<Vec<_>>()}));
+    }
+    let expected = ["join_reorder", "subquery_to_join", "in_subquery_index", "index_scan"];
+    let vac: Vec<&str> = expected.iter().filter(|s| !by_site.contains_key(**s)).cloned().collect();
+    if !vac.is_empty() {
+        println!("  WARNING: mechanisms never reached by any formulation: {:?}", vac);
+    }
+    (Value::Object(out), json!(vac))
+}
+
+// =============================================================================================
+// replay
+// =============================================================================================
+
+pub fn replay(case: &Value) -> i32 {
+    let setup: Vec<String> = case["setup"].as_array().map(|a| a.iter().filter_map(|s| s.as_str().map(|x| x.to_string())).collect()).unwrap_or_default();
+    let query = case["query"].as_str().unwrap_or("");
+    let expected: Vec<Vec<NV>> = case["expected_bag"]
+        .as_array()
+        .map(|rows| {
+            rows.iter()
+                .map(|r| r.as_array().map(|c| c.iter().map(|v| if v.is_null() { NV::Null } else { NV::Int(v.as_i64().unwrap_or(0) as i128) }).collect()).unwrap_or_default())
+                .collect()
+        })
+        .unwrap_or_default();
+    let db = match build_engine(&setup) {
+        Ok(d) => d,
+        Err(e) => {
+            eprintln!("MACHINERY-ERROR {}", e);
+            return 2;
+        }
+    };
+    for s in &setup {
+        println!("  {}", s);
+    }
+    let out = exec::select(&db, query);
+    println!("query:    {}", query);
+    println!("observed: {}", out.brief());
+    println!("expected: {} (definitional nested-loop evaluation)", val::fmt_bag(&expected));
+    if let Some(ms) = case["class_members"].as_object() {
+        println!("other members of class {}:", case["class"].as_str().unwrap_or("?"));
+        for (k, v) in ms {
+            if let Some(sql) = v.as_str() {
+                if sql != query {
+                    let o = exec::select(&db, sql);
+                    let same = match &o {
+                        Out::Rows(r) => val::bag(r) == expected,
+                        _ => false,
+                    };
+                    println!("  [{}] {:<28} {} => {}", if same { "ok " } else { "BAD" }, k, sql, util::trunc(&o.brief(), 100));
+                }
+            }
+        }
+    }
+    match &out {
+        Out::Rows(r) if val::bag(r) == expected => {
+            println!("replay: the query now returns the expected bag");
+            0
+        }
+        _ => {
+            println!("replay: violation reproduced");
+            1
+        }
+    }
+}
+
+/// Development aid: `metacheck bench [threads]` — cost of one engine query, single- and multi-threaded.
+pub fn bench(threads: usize) {
+    let n = names("qual");
+    let data: [Vec<Vec<Val>>; 3] = [
+        vec![vec![Val::Null, Val::Int(0)], vec![Val::Int(1), Val::Int(1)]],
+        vec![vec![Val::Int(1), Val::Int(1)], vec![Val::Null, Val::Int(0)]],
+        vec![],
+    ];
+    let stmts = setup_sql(n.schema, &data, "inner_key", &n);
+    let qs = [
+        "SELECT t.a, t.b, u.a, u.d FROM t, u WHERE t.a = u.a",
+        "SELECT t.a, t.b, u.a, u.d FROM t JOIN u ON t.a = u.a",
+        "SELECT t.a, t.b FROM t WHERE t.a IN (SELECT u.a FROM u)",
+        "SELECT t.a, t.b FROM t WHERE EXISTS (SELECT 1 FROM u WHERE u.a = t.a) OR 1 = 0",
+        "SELECT t.a FROM t",
+    ];
+    for q in qs {
+        let t0 = std::time::Instant::now();
+        let iters = 3000usize;
+        if threads == 0 {
+            // on the main thread (main malloc arena)
+            let db = build_engine(&stmts).unwrap();
+            let stmt = match exec::parse(q) {
+                Ok(vibesql_ast::Statement::Select(s)) => s,
+                _ => panic!("parse"),
+            };
+            for _ in 0..iters {
+                let _ = exec::select_stmt(&db, &stmt);
+            }
+        }
+        std::thread::scope(|s| {
+            for _ in 0..threads {
+                s.spawn(|| {
+                    let db = build_engine(&stmts).unwrap();
+                    let stmt = match exec::parse(q) {
+                        Ok(vibesql_ast::Statement::Select(s)) => s,
+                        _ => panic!("parse"),
+                    };
+                    for _ in 0..iters {
+                        let _ = exec::select_stmt(&db, &stmt);
+                    }
+                });
+            }
+        });
+        let el = t0.elapsed().as_secs_f64();
+        println!("{:>8.1} us/query wall per thread ({} threads)  {}", el * 1e6 / iters as f64, threads, q);
+    }
 }
